@@ -146,17 +146,46 @@ def make_wave(d, own=None):
     return own.ndarray(v)
 
 
-def make_source(d):
+def make_prim_source(d, with_z=True):
     from synphot import SourceSpectrum
-    from synphot.models import Empirical1D, ConstFlux1D, GaussianFlux1D
-    if d['kind'] == 'table':
+    from synphot.models import Empirical1D, ConstFlux1D, GaussianFlux1D, PowerLawFlux1D, BlackBodyNorm1D
+    kw = {}
+    if with_z and d.get('z') is not None and d.get('zhow', 'ctor') == 'ctor':
+        kw = {'z': fl(d['z']), 'z_type': d.get('ztype', 'wavelength_only')}
+    k = d['kind']
+    if k == 'table':
         return SourceSpectrum(Empirical1D, points=np.array([fl(x) for x in d['pts']]),
-                              lookup_table=np.array([fl(x) for x in d['vals']]), keep_neg=d['keep_neg'])
-    if d['kind'] == 'const':
-        return SourceSpectrum(ConstFlux1D, amplitude=fl(d['amp']))
-    if d['kind'] == 'gauss':
-        return SourceSpectrum(GaussianFlux1D, mean=fl(d['mean']), fwhm=fl(d['fwhm']), total_flux=fl(d['total']))
-    raise KeyError(d['kind'])
+                              lookup_table=np.array([fl(x) for x in d['vals']]), keep_neg=d['keep_neg'], **kw)
+    if k == 'const':
+        return SourceSpectrum(ConstFlux1D, amplitude=fl(d['amp']), **kw)
+    if k == 'gauss':
+        return SourceSpectrum(GaussianFlux1D, mean=fl(d['mean']), fwhm=fl(d['fwhm']), total_flux=fl(d['total']), **kw)
+    if k == 'powerlaw':
+        return SourceSpectrum(PowerLawFlux1D, amplitude=fl(d['amp']), x_0=fl(d['x0']), alpha=fl(d['alpha']), **kw)
+    if k == 'blackbody':
+        return SourceSpectrum(BlackBodyNorm1D, temperature=fl(d['temp']), **kw)
+    raise KeyError(k)
+
+
+def make_source(d, with_z=True):
+    """everything a caller can hand in as a source: primitives (z in the constructor or assigned afterwards, either
+    z_type), a scaled source, a sum; a composite may be given a redshift of its own (assignment)"""
+    k = d['kind']
+    if k == 'scaled':
+        sp = make_source(d['base'], with_z) * fl(d['k'])
+    elif k == 'sum':
+        sp = make_source(d['a'], with_z) + make_source(d['b'], with_z)
+    else:
+        sp = make_prim_source(d, with_z)
+    if with_z and d.get('z') is not None and (k in ('scaled', 'sum') or d.get('zhow') != 'ctor'):
+        zt = d.get('ztype', 'wavelength_only')
+        if d.get('zhow') == 'assign_z_first':
+            sp.z = fl(d['z'])
+            sp.z_type = zt
+        else:
+            sp.z_type = zt
+            sp.z = fl(d['z'])
+    return sp
 
 
 def make_madau_wave(d, own=None):
@@ -261,17 +290,25 @@ def impl_call(case):
         return guarded(f)
     if op == 'ext_apply':
         def f():
-            law = make_law(case['law'], own)
             src = make_source(case['src'])
-            c = law.extinction_curve(make_ebv(case['ebv'], own), wavelengths=make_wave(case['wave'], own))
+            if case.get('madau') is not None:
+                from synphot.reddening import etau_madau
+                c = etau_madau(make_madau_wave(case['madau']['wave'], own), make_z(case['madau']['z']))
+            else:
+                law = make_law(case['law'], own)
+                c = law.extinction_curve(make_ebv(case['ebv'], own), wavelengths=make_wave(case['wave'], own))
             sp = c * src if case.get('curve_first') else src * c
             own.scramble(how)
             at = np.array([fl(x) for x in case['at']])
             ws, ws0 = sp.waveset, src.waveset
-            return {'vals': sp(at).value.tolist(), 'src': src(at).value.tolist(), 'curve': c(at).value.tolist(),
-                    'waveset': None if ws is None else ws.value.tolist(),
-                    'src_waveset': None if ws0 is None else ws0.value.tolist(),
-                    'cls': type(sp).__name__}
+            out = {'vals': sp(at).value.tolist(), 'src': src(at).value.tolist(), 'curve': c(at).value.tolist(),
+                   'waveset': None if ws is None else ws.value.tolist(),
+                   'src_waveset': None if ws0 is None else ws0.value.tolist(),
+                   'cls': type(sp).__name__}
+            if case['src'].get('z') is not None and case['src']['kind'] not in ('scaled', 'sum'):
+                rest = make_source(case['src'], with_z=False).waveset       # the same source without redshift
+                out['rest_waveset'] = None if rest is None else rest.value.tolist()
+            return out
         return guarded(f)
     if op == 'madau':
         def f():
@@ -299,9 +336,11 @@ def model_case(case):
         return {'op': op, 'law': case['law'], 'a': case['a'], 'b': case['b'], 'wave': model_wave(case['wave']),
                 'at': case['at']}
     if op == 'ext_apply':
-        if case['src']['kind'] == 'gauss':
-            return None
-        return {'op': op, 'src': case['src'], 'law': case['law'],
+        src = case['src']
+        if src['kind'] not in ('table', 'const') or case.get('madau') is not None:
+            return None         # analytic / composite sources and the Madau application: oracle only
+        ms = {k: v for k, v in src.items() if k not in ('zhow',)}
+        return {'op': op, 'src': ms, 'law': case['law'],
                 'ebv': {'kind': case['ebv']['kind'], 'v': case['ebv'].get('v')},
                 'wave': model_wave(case['wave']), 'thr': q(THR), 'at': case['at']}
     if op == 'madau':
@@ -443,10 +482,18 @@ def oracle_ext_pair(rep, case, out):
         rep.oracle_fail('ext_pair:inverse_law', 'curve(a) x curve(-a) != 1: %s' % undo.tolist()[:6], case, out)
 
 
+def src_class(src):
+    k = src['kind']
+    z = 'z=0' if src.get('z') is None or unq(src['z']) == 0 else 'z!=0'
+    return '%s,%s' % ('composite' if k in ('scaled', 'sum') else 'table' if k == 'table' else 'analytic', z)
+
+
 def oracle_ext_apply(rep, case, out):
-    grid = grid_of(case)
-    if wave_error_class(grid) is not None or len(grid) < 2 or case['ebv']['kind'] not in ('real', 'mag'):
-        return
+    if case.get('madau') is None:
+        grid = grid_of(case)
+        if wave_error_class(grid) is not None or len(grid) < 2 or case['ebv']['kind'] not in ('real', 'mag'):
+            return
+    cls = src_class(case['src'])
     if 'err' in out:
         rep.oracle_fail('ext_apply:valid:%s' % out['err'], 'valid request raised %s: %s' % (out['err'], out.get('msg')),
                         case, out)
@@ -455,10 +502,19 @@ def oracle_ext_apply(rep, case, out):
     vals, src, cur = np.array(res['vals']), np.array(res['src']), np.array(res['curve'])
     expect = src * cur
     if not np.all(np.abs(vals - expect) <= 1e-12 * np.abs(expect)):
-        rep.oracle_fail('ext_apply:pointwise', 'source x curve is not the pointwise product: %s vs %s'
-                        % (vals.tolist()[:6], expect.tolist()[:6]), case, out)
+        rep.oracle_fail('ext_apply:pointwise:%s' % cls, 'source x curve is not the pointwise product of the source and '
+                        'the curve sampled at the same wavelengths: %s vs %s' % (vals.tolist()[:6], expect.tolist()[:6]),
+                        case, out)
     if res['waveset'] != res['src_waveset']:
-        rep.oracle_fail('ext_apply:waveset_changed', "the product's waveset differs from the source's", case, out)
+        rep.oracle_fail('ext_apply:waveset_changed:%s' % cls, "the product's waveset differs from the source's",
+                        case, out)
+    if 'rest_waveset' in res:
+        z = fl(case['src']['z'])
+        rest, got = res['rest_waveset'], res['src_waveset']
+        if (rest is None) != (got is None) or (rest is not None and (
+                len(rest) != len(got) or not np.allclose(np.array(rest) * (1 + z), got, rtol=1e-12, atol=0))):
+            rep.oracle_fail('ext_apply:redshifted_waveset:%s' % cls,
+                            'the sampling set of the redshifted source is not the rest set x (1+z)', case, out)
     if res.get('cls') != 'SourceSpectrum':
         rep.oracle_fail('ext_apply:class:%s' % res.get('cls'), 'source x curve is not a SourceSpectrum', case, out)
 
@@ -680,13 +736,18 @@ def case_ext_pair(rng, nmax):
     return c
 
 
-def gen_source(rng, nmax, lawpts):
+def gen_prim_source(rng, nmax, lawpts):
     r = rng.random()
-    if r < 0.15:
+    if r < 0.12:
         return {'kind': 'const', 'amp': q(10 ** rng.uniform(-3, 3))}
-    if r < 0.25:
+    if r < 0.2:
         return {'kind': 'gauss', 'mean': q(rng.uniform(2000, 8000)), 'fwhm': q(rng.uniform(10, 500)),
                 'total': q(10 ** rng.uniform(-3, 3))}
+    if r < 0.25:
+        return {'kind': 'powerlaw', 'amp': q(10 ** rng.uniform(-3, 3)), 'x0': q(rng.uniform(2000, 8000)),
+                'alpha': q(dy(rng, -3, 3, 2))}
+    if r < 0.3:
+        return {'kind': 'blackbody', 'temp': q(rng.uniform(3000, 30000))}
     n = rng.randint(2, nmax)
     lo = lawpts[0] * rng.choice([0.3, 0.8, 1.0, 1.5])
     pts = [lo]
@@ -700,18 +761,68 @@ def gen_source(rng, nmax, lawpts):
     return {'kind': 'table', 'pts': qs(pts), 'vals': qs(vals), 'keep_neg': rng.random() < 0.2}
 
 
+def add_redshift(rng, src, p=0.55):
+    """z = 0 (default) or z != 0, either z_type, given to the constructor or assigned afterwards (both orders)"""
+    if rng.random() < p:
+        z = dy(rng, 0, 4, 4) if rng.random() < 0.9 else dy(rng, -0.5, 0, 4)
+        src['z'] = q(z)
+        src['ztype'] = rng.choice(['wavelength_only', 'conserve_flux'])
+        src['zhow'] = rng.choice(['ctor', 'assign', 'assign_z_first'])
+    return src
+
+
+def gen_source(rng, nmax, lawpts):
+    r = rng.random()
+    if r < 0.12:
+        base = add_redshift(rng, gen_prim_source(rng, nmax, lawpts))
+        return add_redshift(rng, {'kind': 'scaled', 'base': base, 'k': q(dy(rng, 0.125, 8, 3))}, p=0.4)
+    if r < 0.24:
+        a = add_redshift(rng, gen_prim_source(rng, nmax, lawpts))
+        b = add_redshift(rng, gen_prim_source(rng, nmax, lawpts))
+        return add_redshift(rng, {'kind': 'sum', 'a': a, 'b': b}, p=0.4)
+    return add_redshift(rng, gen_prim_source(rng, nmax, lawpts))
+
+
+def src_points(src):
+    """observed-frame points worth sampling: the table knots of every leaf, redshifted as the tree says"""
+    k = src['kind']
+    if k == 'scaled':
+        p = src_points(src['base'])
+    elif k == 'sum':
+        p = src_points(src['a']) + src_points(src['b'])
+    elif k == 'table':
+        p = [fl(x) for x in src['pts']]
+    else:
+        p = []
+    z = fl(src['z']) if src.get('z') is not None else 0.0
+    return [x * (1 + z) for x in p]
+
+
 def case_ext_apply(rng, nmax):
     law = gen_law(rng, nmax)
     while not law_is_positive(law):
         law = gen_law(rng, nmax)
-    wave = gen_grid(rng, law, nmax, allow_bad=False)
     lp = sorted(fl(x) for x in law['pts'])
     src = gen_source(rng, nmax, lp)
-    c = {'op': 'ext_apply', 'law': law, 'src': src, 'ebv': gen_ebv(rng, allow_bad=False), 'wave': wave,
-         'curve_first': rng.random() < 0.4}
-    at = set(grid_of(c))
-    if src['kind'] == 'table':
-        at.update(fl(x) for x in src['pts'])
+    c = {'op': 'ext_apply', 'law': law, 'src': src, 'curve_first': rng.random() < 0.4}
+    if rng.random() < 0.15:
+        # the Lyman-forest curve of a source (usually at the source's own redshift) applied to it
+        zs = src.get('z') if src.get('z') is not None and unq(src['z']) >= 0 else q(dy(rng, 0, 4, 4))
+        xe = 1.0 + fl(zs)
+        n = rng.randint(2, nmax)
+        v = sorted({math.exp(rng.uniform(math.log(300.0 * xe), math.log(2000.0 * xe))) for _ in range(n + 2)})
+        if rng.random() < 0.3:
+            v = v[::-1]
+        c['madau'] = {'wave': {'kind': 'arr', 'py': rng.choice(['list', 'ndarray', 'AA']), 'raw': qs(v), 'aa': qs(v),
+                               'mut': rng.choice(['scale', 'reverse', 'shift'])},
+                      'z': {'kind': 'real', 'py': 'float', 'v': zs}}
+        c['wave'] = c['madau']['wave']       # (for the post-call scrambling mode)
+        at = set(v)
+    else:
+        c['ebv'] = gen_ebv(rng, allow_bad=False)
+        c['wave'] = gen_grid(rng, law, nmax, allow_bad=False)
+        at = set(grid_of(c))
+    at.update(x for x in src_points(src) if x > 0)
     for _ in range(3):
         at.add(math.exp(rng.uniform(math.log(lp[0] * 0.5), math.log(lp[-1] * 2))))
     c['at'] = qs(sorted(at))
@@ -836,8 +947,11 @@ def fixed_cases():
 # ------------------------------------------------------------------ driver of the check
 def tags(c, o):
     t = [c['op'], c['op'] + ':outcome:' + (o.get('err') or 'ok')]
-    if c['op'] in ('ext_curve', 'ext_apply'):
+    if c['op'] in ('ext_curve', 'ext_apply') and 'ebv' in c:
         t.append('ebv:' + c['ebv']['py'])
+    if c['op'] == 'ext_apply':
+        t.append('src:' + src_class(c['src']))
+        t.append('curve:' + ('madau' if c.get('madau') is not None else 'extinction'))
     if c['op'] == 'ext_curve':
         t.append('prior_calls:%d' % len(c.get('prior', [])))
     if c['op'] == 'madau':
@@ -855,6 +969,21 @@ def compare(c, o, m):
                 'ext_apply': ('vals', 'waveset'), 'madau': ('pts', 'vals', 'at')}[c['op']]
         if c['op'] == 'madau' and any(abs(unq(t) - 700) < F(1, 1000) for t in m['ok'].get('tau', [])):
             return None         # the `tau > 700` decision is taken on a rounded number
+        if c['op'] == 'ext_apply' and c['src']['kind'] == 'table':
+            # a redshifted table is sampled at w/(1+z), a rounded number: next to a knot where the table goes to 0
+            # the product legitimately cancels to 0, so the values get an absolute floor of 1e-12 x (largest
+            # table value) x (curve value); the waveset is compared as usual
+            r = same(o['ok']['waveset'], m['ok']['waveset'], rtol=1e-9, path='.waveset')
+            if r:
+                return r
+            top = max(abs(fl(v)) for v in c['src']['vals'])
+            iv, mv, cv = o['ok']['vals'], m['ok']['vals'], o['ok']['curve']
+            if len(iv) != len(mv):
+                return '.vals: length impl %d vs model %d' % (len(iv), len(mv))
+            for i, (a, b, k) in enumerate(zip(iv, mv, cv)):
+                if not core.close(a, unq(b), 1e-9, 1e-12 * top * abs(k)):
+                    return '.vals[%d]: impl %r vs model %r (=%r)' % (i, a, b, core.unqf(b))
+            return None
         return same({k: o['ok'][k] for k in keys}, {k: m['ok'][k] for k in keys}, rtol=1e-9)
     return same(o, m, rtol=1e-9)
 
@@ -874,7 +1003,10 @@ def run(rep):
                 'float / int / NumPy scalar / mag Quantity / Magnitude (and 6% invalid objects) x sampling grids (None = '
                 'own waveset, arrays inside/beyond the law range, on law knots, both orders, list/ndarray/Quantity in AA, nm, micron; 6% '
                 'invalid, 2.5% shorter than two points; 40% of the curves are requested after 1..3 earlier requests on the same law object with grids of the same length and end points, the reversed grid, a rescaled or an unrelated grid); pairs (a, b) on the lattice 1/64 with a, b, a+b in [-5, 5]; '
-                'table / constant / Gaussian sources x curve in both operand orders; Madau: z in [0, 10] on dyadic '
+                'sources x curve (extinction curve, 15% the Madau curve) in both operand orders, the source drawn from tables, '
+                'constants, Gaussian / power-law / black-body models, scaled sources and sums, each with z = 0 or z != 0 '
+                '(lattice 1/16 in [-0.5, 4]) in both z_types given to the constructor or assigned afterwards in either '
+                'order, composites with a redshift of their own; Madau: z in [0, 10] on dyadic '
                 'lattices (int, float, NumPy; plus a few z in (-1, 0), z <= -1, z in (10, 80], non-numbers) x grids of '
                 '2..N wavelengths 0.5 A .. 2 x 1216 (1+z) incl. points exactly on the region boundaries, as '
                 'list/tuple/ndarray/Quantity(AA, nm), plus too-short / 0-d / wrong-unit inputs. History after the call: every '
